@@ -78,7 +78,7 @@ IsScalar(ts, i) == i # 0 /\ LET s == Strip(ts, i) IN ts[s].k \in {"base", "ptr",
 IsArrayLike(ts, i) == i # 0 /\ ts[Strip(ts, i)].k = "array"
 IsObject(ts, i) == i # 0                              \* every non-void type we build is a complete object type at the end
 ParamOk(ts, i) == i # 0 /\ ~IsArrayLike(ts, i)       \* arrays decay when used as parameters: never generated there
-RetOk(ts, i) == i = 0 \/ ~IsArrayLike(ts, i)
+RetOk(ts, i) == i = 0 \/ (~IsArrayLike(ts, i) /\ ts[i].k # "const")   \* C drops top-level qualifiers of a return type: never generated there
 ConstOk(ts, i) == i # 0 /\ ts[i].k \in {"base", "ptr", "struct", "union", "enum", "typedef"} /\ ~IsArrayLike(ts, i)
 
 IfaceRoots(f) == ({f.r} \cup {f.p[j].t : j \in 1..Len(f.p)}) \ {0}
@@ -301,7 +301,8 @@ Expect ==
        inUnion |-> \E i \in MutTypes : \E u \in TRef(types2) : types2[u].k = "union" /\ i \in ByVal(types2, u) ]
 
 Case == [lang |-> Lang, types |-> types, fns |-> fns, vars |-> vars,
-         types2 |-> types2, fns2 |-> fns2, vars2 |-> vars2, muts |-> muts, expect |-> Expect]
+         types2 |-> types2, fns2 |-> fns2, vars2 |-> vars2, muts |-> muts, expect |-> Expect,
+         reach |-> Reachable(types, fns, vars)]
 Emit == phase # "done" \/ PrintT(ToJson(Case))
 
 (* ---- well-formedness and catalogue sanity: invariants checked exhaustively at small bounds ------ *)
